@@ -340,7 +340,11 @@ fn main() {
     env: vec![("RAYON_NUM_THREADS".into(), "2".into())],
     max_deaths_per_shard: 200,
   };
+  pool::MAX_HANGS.store(if thorough { 24 } else { 6 }, std::sync::atomic::Ordering::SeqCst);
   let (res, timed_out) = pool::drive(&opts);
+  if pool::STOPPED_EARLY.load(std::sync::atomic::Ordering::SeqCst) {
+    run.inconclusive("the run was stopped early after several stalled inputs (each is examined below); the remaining inputs were not tried");
+  }
   if timed_out {
     run.inconclusive("overall wall-clock cap reached before all cases ran");
   }
